@@ -13,9 +13,11 @@ package main
 // Nothing here changes what is analysed: all facts are still derived from the current tree's SSA.
 
 import (
+	"go/token"
 	"go/types"
 	"iter"
 	"reflect"
+	"strings"
 
 	"golang.org/x/tools/go/ssa"
 )
@@ -85,7 +87,7 @@ func (w *World) knownFns() map[*ssa.Function]bool {
 
 // isPrivateHelper: an unexported, non-anchor function of the package that is only ever called statically.
 func (w *World) isPrivateHelper(f *ssa.Function) bool {
-	if f == nil || f.Parent() != nil || f.Blocks == nil || !w.inRoot(f) || f.Synthetic != "" {
+	if f == nil || f.Parent() != nil || f.Blocks == nil || !w.inRoot(f) || (f.Synthetic != "" && !strings.HasPrefix(f.Synthetic, "instance of ")) {
 		return false
 	}
 	if w.knownFns()[f] {
@@ -216,12 +218,10 @@ func crossResult(v ssa.Value) ssa.Value {
 			okAll = false
 			return
 		}
-		for _, l := range phiLeaves(ret.Results[idx]) {
-			if one == nil {
-				one = l
-			} else if l != one {
-				okAll = false
-			}
+		if l := ret.Results[idx]; one == nil {
+			one = l
+		} else if l != one {
+			okAll = false
 		}
 	})
 	if !okAll {
@@ -574,4 +574,31 @@ func paramAt(fn *ssa.Function, i int) ssa.Value {
 		return nil
 	}
 	return fn.Params[i]
+}
+
+// flatArgs: the arguments of a call, with arguments that are struct values built locally (parameters bundled into a
+// configuration struct) replaced by the values stored into their fields.
+func flatArgs(call *ssa.Call) []ssa.Value {
+	var out []ssa.Value
+	for _, a := range call.Call.Args {
+		expanded := false
+		if u, ok := origin(a).(*ssa.UnOp); ok && u.Op == token.MUL {
+			if al, isA := u.X.(*ssa.Alloc); isA && !allocEscapes(al) {
+				if n := namedOf(al.Type()); n != nil && n.Obj().Pkg() != nil && n.Obj().Pkg().Path() == rootPath {
+					if st, isS := n.Underlying().(*types.Struct); isS {
+						for i := 0; i < st.NumFields(); i++ {
+							if v := storedFieldValue(al, i, u); v != nil {
+								out = append(out, v)
+								expanded = true
+							}
+						}
+					}
+				}
+			}
+		}
+		if !expanded {
+			out = append(out, a)
+		}
+	}
+	return out
 }
